@@ -207,6 +207,10 @@ func minimise(t *testing.T, prop Property2, p *Plan2, first *Result2, class stri
 	// fewer context switches: keep a prefix of the failing trace, then always continue the first runnable task
 	lo, hi := 0, len(best.Choices)
 	for lo < hi && runs <= 120 {
+		if hi > len(best.Choices) {
+			hi = len(best.Choices) // a successful try replaces best (and its trace) with a shorter one
+			continue
+		}
 		mid := (lo + hi) / 2
 		c := best.Clone()
 		c.Choices = append(append([]int(nil), best.Choices[:mid]...), make([]int, len(best.Choices)-mid+64)...)
